@@ -164,56 +164,73 @@ class AsyncLRUCacheWrapper(Generic[P, T]):
             cache_entry = cache[self] = OrderedDict()
 
         cached_value: T | _InitialMissingType
-        try:
-            cached_value, lock, expires_at = cache_entry[key]
-        except KeyError:
-            # We're the first task to call this function
-            cached_value, lock, expires_at = (
-                initial_missing,
-                Lock(fast_acquire=not self._always_checkpoint),
-                None,
-            )
-            cache_entry[key] = cached_value, lock, expires_at
-
-        if lock is None:
-            if expires_at is not None and current_time() >= expires_at:
-                self._currsize -= 1
+        while True:
+            try:
+                cached_value, lock, expires_at = cache_entry[key]
+            except KeyError:
+                # We're the first task to call this function
                 cached_value, lock, expires_at = (
                     initial_missing,
                     Lock(fast_acquire=not self._always_checkpoint),
                     None,
                 )
                 cache_entry[key] = cached_value, lock, expires_at
-            else:
-                # The value was already cached
-                self._hits += 1
-                cache_entry.move_to_end(key)
-                if self._always_checkpoint:
-                    await checkpoint()
 
-                return cast(T, cached_value)
-
-        async with lock:
-            # Check if another task filled the cache while we acquired the lock
-            if (cached_value := cache_entry[key][0]) is initial_missing:
-                self._misses += 1
-                if self._maxsize is not None and self._currsize >= self._maxsize:
-                    cache_entry.popitem(last=False)
+            if lock is None:
+                if expires_at is not None and current_time() >= expires_at:
+                    self._currsize -= 1
+                    cached_value, lock, expires_at = (
+                        initial_missing,
+                        Lock(fast_acquire=not self._always_checkpoint),
+                        None,
+                    )
+                    cache_entry[key] = cached_value, lock, expires_at
                 else:
-                    self._currsize += 1
+                    # The value was already cached
+                    self._hits += 1
+                    cache_entry.move_to_end(key)
+                    if self._always_checkpoint:
+                        await checkpoint()
 
-                value = await self.__wrapped__(*args, **kwargs)
+                    return cast(T, cached_value)
+
+            async with lock:
+                # If another task filled the cache while we were waiting for the lock,
+                # or the entry was evicted in the meantime, start over
+                entry = cache_entry.get(key)
+                if entry is None or entry[1] is not lock:
+                    continue
+
+                self._misses += 1
+                try:
+                    value = await self.__wrapped__(*args, **kwargs)
+                except BaseException:
+                    # Forget the pending entry, unless other tasks are waiting for
+                    # their turn to call the function
+                    if not lock.statistics().tasks_waiting:
+                        del cache_entry[key]
+
+                    raise
+
+                # Make room for the result by evicting the least recently used
+                # results; pending entries are neither counted nor evicted
+                if self._maxsize is not None:
+                    while self._currsize >= self._maxsize:
+                        for old_key, old_entry in cache_entry.items():
+                            if old_entry[1] is None:
+                                del cache_entry[old_key]
+                                self._currsize -= 1
+                                break
+                        else:
+                            break
+
                 expires_at = (
                     current_time() + self._ttl if self._ttl is not None else None
                 )
                 cache_entry[key] = value, None, expires_at
-            else:
-                # Another task filled the cache while we were waiting for the lock
-                self._hits += 1
                 cache_entry.move_to_end(key)
-                value = cast(T, cached_value)
-
-        return value
+                self._currsize += 1
+                return value
 
     def __get__(
         self, instance: object, owner: type | None = None
